@@ -909,7 +909,59 @@ func isCtorOf(mm *core.MapModel, g *ssa.Function) bool {
 
 // ---- P6: copy under the source lock, source intact ----
 
+// p6EveryBucket: in the copy loop of a grow or shrink the copy routine runs for every source bucket - no path of the
+// loop body gets back to the loop's head without having called it. (The call is what takes the source bucket's lock:
+// a bucket skipped because it looks empty is one whose in-flight writer - validated before the resize began - is not
+// waited for; its update lands in the retired table and is lost.)
+func p6EveryBucket(r *Run, rep *core.Report, prop string, mm *core.MapModel) {
+	n := 0
+	for _, f := range append([]*ssa.Function{mm.Resize}, mm.ResizeHelpers...) {
+		if f == nil {
+			continue
+		}
+		core.Instrs(f, func(in ssa.Instruction) {
+			c, ok := in.(*ssa.Call)
+			if !ok || core.Callee(c) != mm.Copy {
+				return
+			}
+			B := c.Block()
+			// the innermost loop around the call: header H dominates B, some latch X (X -> H, H dominates X) is reachable from B
+			var head *ssa.BasicBlock
+			for _, h := range f.Blocks {
+				if !(h == B || h.Dominates(B)) {
+					continue
+				}
+				isHead := false
+				for _, x := range h.Preds {
+					if (h == x || h.Dominates(x)) && (x == B || blockReachUntil(B, h)[x]) {
+						isHead = true
+					}
+				}
+				if isHead && (head == nil || head.Dominates(h)) {
+					head = h
+				}
+			}
+			if head == nil {
+				return // not in a loop (a helper called per bucket): its caller's loop is judged where the helper is called
+			}
+			n++
+			okAll := true
+			for _, x := range head.Preds {
+				if !(head == x || head.Dominates(x)) {
+					continue // loop entry edge
+				}
+				if !(B == x || B.Dominates(x)) {
+					okAll = false
+				}
+			}
+			rep.Check(okAll, prop+".P6", fn(f)+" copies every bucket", r.P.InstrPos(in), "every iteration of the copy loop calls the copy routine (which takes the source bucket's lock)", "an iteration of the copy loop can go on to the next bucket without calling the copy routine: the skipped bucket's lock is not taken, so a writer that validated before the resize began and is still inside that bucket is not waited for - its update goes to the retired table and is lost")
+		})
+	}
+	rep.MinCount(prop+".P6", "copy loops in "+mm.Name+" resize", n, 1)
+}
+
 func p6Copy(r *Run, rep *core.Report, prop string, mm *core.MapModel) {
+	p6EveryBucket(r, rep, prop, mm)
 	f := mm.Copy
 	rep.Fn(fn(f))
 	lf := lockFactsCached(r, f, core.Spec{})
